@@ -424,8 +424,13 @@ func (f *Frame) frameCheck(r retInfo, env *SpecEnv) {
 	// expected final heaps: the entry heaps with only the listed locations replaced by their final values
 	expect := f.entrySt.clone()
 	exact := map[string]bool{}
+	var allowedPrefix []string
 	for _, m := range fc.Modifies {
 		lv := pre.lvalue(m)
+		if lv.globalsOf != nil {
+			allowedPrefix = append(allowedPrefix, "G_"+sanitize(lv.globalsOf.Pkg.Path()+"."))
+			continue
+		}
 		n := c.heapNameOfPath(lv.path)
 		if n == "" {
 			continue
@@ -477,6 +482,15 @@ func (f *Frame) frameCheck(r retInfo, env *SpecEnv) {
 		t := r.st.heaps[n]
 		def := c.defaultHeap(0, n, c.heapSorts[n])
 		if t == def || allowed[n] {
+			continue
+		}
+		okPrefix := false
+		for _, p := range allowedPrefix {
+			if strings.HasPrefix(n, p) {
+				okPrefix = true
+			}
+		}
+		if okPrefix {
 			continue
 		}
 		if strings.HasPrefix(n, "G_") {
